@@ -144,6 +144,38 @@ func runC18(c *Ctx, w *World, r *Report) {
 			}
 			r.Check(bad == "", "R-CONTAIN", key, w.InstrPos(ic.Call), bad, "X = "+X.String()+"; X - limit <= -1; buffer = p | p[0:limit-X] split exactly at len(p) <= limit-X")
 		}
+		// ---- R-NOOVERFLOW (WriteAt): the caller's offset is bounded before the section start is added to it
+		if !isWrite {
+			r.Rule("R-NOOVERFLOW", "WriteAt compares the caller's offset with the section length (limit-base) BEFORE adding base to it: adding first lets base+off wrap around for offsets above MaxInt64-base, the wrapped (negative) position then passes the end test and the write escapes the section")
+			badO := ""
+			nadd := 0
+			offP := ssa.Value(fn.Params[2])
+			eachInstr(fn, func(ins ssa.Instruction) {
+				bo, ok := ins.(*ssa.BinOp)
+				if !ok || bo.Op != token.ADD {
+					return
+				}
+				var other ssa.Value
+				if stripConv(bo.X) == offP {
+					other = bo.Y
+				} else if stripConv(bo.Y) == offP {
+					other = bo.X
+				} else {
+					return
+				}
+				if _, isC := constInt64(stripConv(other)); isC {
+					return
+				}
+				nadd++
+				// upper bound for off alone (constant) or for off + other - limit
+				b1 := fa.BoundsAt(bo.Block(), fa.Lin(offP))
+				b2 := fa.BoundsAt(bo.Block(), fa.Lin(bo).Sub(lim))
+				if !(b1.HasHi || b2.HasHi) {
+					badO = fmt.Sprintf("off + %s at %s is computed while off has no upper bound: it can wrap around int64", fa.Lin(other), w.InstrPos(ins))
+				}
+			})
+			r.Check(badO == "", "R-NOOVERFLOW", n, w.Pos(fn.Pos()), badO, fmt.Sprintf("%d additions to the caller's offset, each after off < limit-base was established", nadd))
+		}
 		// ---- R-SHORT
 		{
 			errs := map[ssa.CallInstruction]ssa.Value{}
